@@ -15,7 +15,9 @@ from ixai.storage import (BatchStorage, IntervalStorage, SequenceStorage, Unifor
                           GeometricReservoirStorage)
 from ixai.utils.tracker import MultiValueTracker, WelfordTracker, ExponentialSmoothingTracker
 
-LABELSETS = {1: ['output'], 2: ['a', 'b'], 3: ['a', 'b', 'c']}
+LABELSETS = {1: ['output'], 2: ['a', 'b'], 3: ['a', 'b', 'c'],
+             4: [1, 2, 'unknown'],      # a label alphabet mixing numbers and strings (a classifier with an 'unknown' class)
+             5: [0, 1]}                 # integer class labels
 
 
 # ---- storages -----------------------------------------------------------------------------------
